@@ -18,6 +18,10 @@ UB = ["absent", inf, 2.0, 0.0, -2.0, nan]
 PLB = ["absent", -1.0, 0.0, -3.0, nan, -inf, -2.0, 1.0, -1.9999]
 PUB = ["absent", 1.0, 0.0, 3.0, -1.0, 2.0, inf, -1.9998]
 
+# case kinds of corpus/ entries (failing inputs of past regressions) that this module replays on every run
+CORPUS_KINDS = ('definition',)
+
+
 
 def spell(vec, how, D):
     if vec is None:
